@@ -13,7 +13,12 @@ import (
 	"net/http"
 	"net/textproto"
 	"strings"
+	"time"
 )
+
+// HandshakeTimeout is the time the server has to answer the client's handshake (protocol negotiation, upgrade and
+// StartTLS) before the connection is given up.
+const HandshakeTimeout = 20 * time.Second
 
 // ClientConnection represents a client to the socketace server. It announces the client to the server,
 // checks the server and establishes the connection.
@@ -29,7 +34,18 @@ type ClientConnection struct {
 }
 
 // NewClientConnection will create a connection and negotiate the protocol and TLS security
-func NewClientConnection(c net.Conn, manager cert.TlsConfig, secure bool, host string) (*ClientConnection, error) {
+func NewClientConnection(c net.Conn, manager cert.TlsConfig, secure bool, host string) (cc *ClientConnection, err error) {
+	// A peer which accepts the connection but never answers must not block the caller forever. The deadline is
+	// removed again once the handshake is through; a connection which failed the handshake is of no use to anybody.
+	_ = c.SetDeadline(time.Now().Add(HandshakeTimeout))
+	defer func() {
+		if err != nil {
+			streams.TryClose(c)
+		} else {
+			_ = c.SetDeadline(time.Time{})
+		}
+	}()
+
 	conn := streams.NewBufferedInputConnection(c)
 	connection := &ClientConnection{
 		manager: manager,
